@@ -23,13 +23,12 @@ CONFIG = {
     'trusted_base': ['modelled by hand, tied by correspondence only: control flow of ParsePair / ParseTriple / '
                      'IgnoreCommentAndBlank / the three ParseBlock bodies / BackFindEndLine / FillData / ParserImpl::Next / '
                      'GetBlock / operator[]; dmlc::strtof / ParseUnsignedInt as modelled by C14 (StrToNum), libc atoll / strtoll as emulated in ConvSimple'],
-    'partial': ['C11_thread_invariant_nary_* / C11_chunk_invariant_* / C11_part_invariant_* (libsvm, libfm, csv): proved for any '
-                'number of pieces against the abstract hypothesis "every cut is at / directly after an end-of-line byte"; '
-                'that FillData\'s nstep/sbegin/send + BackFindEndLine slices have this shape is tied by correspondence (`fill` '
-                'ops compare slices and blocks), not by a theorem; for chunks / parts the hypothesis is C03\'s',
-                'csv theorems (C11_block_is_concat_of_lines_csv, cuts, trailing bytes) carry the extra hypothesis that the '
-                'text has no NUL byte inside (the locality contract of conv.cell does not speak about a cell that is white '
-                'space up to a NUL)'],
+    'partial': ['C11_thread_invariant_nary_* / C11_chunk_invariant_* / C11_part_invariant_*: proved for any number of pieces '
+                'cut at / directly after end-of-line bytes; C11_fillData_slices proves that FillData\'s slices (Gen nstep / '
+                'sbegin / send + BackFindEndLine) are contiguous, cover the chunk and are cut at end-of-line bytes (or are '
+                'empty); the final repackaging of those slices as the list `joinAt z ps` of the n-ary theorem (dropping the '
+                'empty slices) is not spelled out as a theorem; for chunks / parts the cut hypothesis is C03\'s',
+                'csv theorems carry the extra hypothesis that the text has no NUL byte inside'],
 }
 
 MANIFEST = {
